@@ -5,6 +5,17 @@ import json, pathlib
 ALL = [f'C{i:02d}' for i in range(1, 20)]
 
 CHECKS = {
+ 'C17': dict(
+   technique='Coq proof for an arbitrary surface function s (x, y untouched; z\' = k (z + s(x,y)); flat surface = plain transform) + value-level differential with scipy\'s interpolant as oracle, sample reproduction and smoothness checks',
+   text='Props/C17.v: for every interpolant s, configuration and point the compensated map leaves x\' and y\' exactly those of the plain '
+        'transformation and gives z\' = k (z + s(x,y)); s = 0 is the plain transformation. Tie to /repo: POS.txt files (regular '
+        'grids 3x3..15x15, 9..200 scattered samples of non-planar surfaces) in fresh directories; transform_points with and '
+        'without warp_flag is compared with the model fed with femto\'s own interpolant values; x\', y\' must be bit-identical '
+        'with and without the flag; the interpolant must reproduce every sample (1e-5) and stay within half the piecewise-linear '
+        'error bound of the sampled smooth surface between samples.',
+   note='Trusted: Coq kernel; scipy RBF solve and the smoothness of its interpolant (numerical evidence only); libm cos/sin; '
+        'float32 addition of the correction modelled exactly (rnd32).',
+   design='5/C17'),
  'C02': dict(
    technique='Coq proof over Q (ring identities: order of the maps, isometry, z scaling, orientation, origin, identity) and over R (degree periodicity) + value-level differential at every call site',
    text='Props/C02.v: the modelled map is rotate . flip . translate with z scaled by k; xy distances scale by c^2+s^2 (isometry for a '
